@@ -26,7 +26,7 @@ import os
 import random
 import sys
 
-sys.path.insert(0, os.environ.get('VERIF_ROOT', '/verif') + '/lib')
+sys.path.insert(0, (os.environ.get('VERIF_ROOT') or os.path.dirname(os.path.dirname(os.path.abspath(__file__)))) + '/lib')
 from schema_oracle import container_sexp  # noqa
 
 U32M = (1 << 32) - 1
